@@ -13,3 +13,6 @@
 (declare-fun pdName (String) Int)
 ; unicode.IsSpace (not interpreted; false at -1, the end-of-input marker, which is no rune)
 (declare-fun is_space (Int) Bool)
+; the notation a chord-degree token is written in, as astconv's degreeType reads it (0 unknown, 1 note name, 2 number):
+; names the function's graph; constrained only through degreeType's own contract
+(declare-fun degKind (String) Int)
